@@ -364,6 +364,18 @@ def compile_mem_sequence(seq):
     return " ".join(code)
 
 
+def f_mem_byte_in_word(deltas=(0, 1, 31, 32)):
+    """a word access, then a byte store, then a word load: the byte may fall on any position of either word"""
+    atoms = [a for _, a in _addr_atoms(list(deltas))]
+    out = []
+    for first in ("MSTORE", "MLOAD"):
+        for a1 in atoms:
+            for a2 in atoms:
+                for a3 in atoms:
+                    out.append(compile_mem_sequence([(first, a1, 0), ("MSTORE8", a2, 1), ("MLOAD", a3, 2)]))
+    return out
+
+
 def f_mem_mutant_pairs(deltas=(0, 1, 32), ops=("MSTORE", "MSTORE8", "MLOAD", "SSTORE", "SLOAD"), length=2):
     """pairs (B, B') where B' drops, duplicates or transposes memory/storage operations of B"""
     atoms = [a for _, a in _addr_atoms(list(deltas))]
